@@ -516,3 +516,138 @@ theorem wrap_effect {h h' : Heap} {x w p : Nat} (hg : Good2 h) (hp : h.parent x 
       rw [List.erase_of_not_mem this]
 
 end BS.Heap
+
+namespace BS.Heap
+
+theorem extractAll_next_kind : ∀ (cs : List Nat) (h h' : Heap), Good h → extractAll h cs = .ok h' →
+    h'.next = h.next ∧ h'.kind = h.kind := by
+  intro cs
+  induction cs with
+  | nil => intro h h' _ he; simp only [extractAll] at he; cases he; exact ⟨rfl, rfl⟩
+  | cons c cs ih =>
+    intro h h' hg he
+    simp only [extractAll] at he
+    cases hx : extract h c with
+    | error e => simp only [hx] at he; cases he
+    | ok h1 =>
+      simp only [hx] at he
+      obtain ⟨hg1, _, _, hk1, hn1⟩ := extract_good extract_spec hg hx
+      obtain ⟨hn, hk⟩ := ih h1 h' hg1 he
+      exact ⟨hn.trans hn1, hk.trans hk1⟩
+
+theorem append_insertCore {h h' : Heap} {p y : Nat} (hy : h.kind y ≠ .soup) (ha : append h p (.node y) = .ok h') :
+    insertCore h p (h.kids p).length y = .ok h' := by
+  unfold append at ha
+  cases hins : insert h p (h.kids p).length [.node y] with
+  | error e => simp only [hins] at ha; cases ha
+  | ok r =>
+    obtain ⟨h1, ins⟩ := r
+    simp only [hins] at ha
+    split at ha
+    · cases ha
+    · cases ha; exact insert_single_node hy hins
+
+/-- **`tag.string = v`**: the tag's former children are detached (each keeps its subtree), and the tag's only child is a NEW string
+    object of the requested class; no other children list changes -/
+theorem setString_effect {h h' : Heap} {t : Nat} {k : Kind} {v : PStr} (hg : Good2 h) (ht : (h.kind t).isTag = true)
+    (hk : k = .str ∨ k = .pre) (hs : setString h t k v = .ok h') :
+    Good2 h' ∧ h'.kids t = [h.next] ∧ h'.parent h.next = some t ∧ (∀ n, n ≠ t → h'.kids n = h.kids n) ∧
+    (∀ n, n ≠ h.next → h'.parent n = if n ∈ h.kids t then none else h.parent n) := by
+  have hks : k ≠ .soup := by rcases hk with rfl | rfl <;> decide
+  unfold setString at hs
+  cases hc : clear h t with
+  | error e => simp only [hc] at hs; cases hs
+  | ok h1 =>
+    simp only [hc] at hs
+    obtain ⟨hg1, hkt1, hko1, hpa1⟩ := clear_effect hg.1 hc
+    obtain ⟨hg1', hks1⟩ := clear_good2 extract_spec linkChild_spec hg hc
+    obtain ⟨hn1, hkind1⟩ := extractAll_next_kind _ _ _ hg.1 hc
+    obtain ⟨hg2, hks2⟩ := alloc_good2 hg1' k v hk
+    obtain ⟨ha2, hap, hak, han, hakn, hako⟩ := alloc_fields h1 k v
+    rw [ha2] at hs
+    have ht2 : ((alloc h1 k v).1.kind t).isTag = true := by rw [hks2.1 t, hks1.1 t]; exact ht
+    have hy2 : (alloc h1 k v).1.kind h1.next ≠ .soup := by rw [hakn]; exact hks
+    obtain ⟨hg', hkt', hko', hpn'⟩ := append_one_effect hg2 ht2 hy2 hs
+    have hfresh : ∀ n, h1.next ∉ h1.kids n := by
+      intro n hm
+      obtain ⟨w1, hwf1⟩ := hg1
+      have h1' := hwf1.kid_parent n _ hm
+      have h2' := (hwf1.fresh h1.next (Nat.le_refl _)).1
+      rw [h2'] at h1'; cases h1'
+    refine ⟨hg', ?_, ?_, ?_, ?_⟩
+    · rw [hkt', hak, hkt1, hn1]; simp
+    · rw [← hn1]; exact hpn'
+    · intro n hn
+      rw [hko' n hn, hak, List.erase_of_not_mem (hfresh n), hko1 n hn]
+    · intro n hn
+      -- parents: append only changes the parent of the appended element
+      obtain ⟨w', hwf'⟩ := hg'.1
+      rw [← hn1] at hn
+      have hshape := insertCore_shape extract_spec linkChild_spec hg2.1 ht2 hy2 (append_insertCore hy2 hs)
+      rw [hshape.2.2 n, if_neg hn, hap, hpa1 n]
+
+end BS.Heap
+
+namespace BS.Heap
+
+theorem nodup_erase_filter {l : List Nat} (hl : l.Nodup) (x : Nat) (q : Nat → Bool) :
+    (l.erase x).filter q = l.filter (fun k => !(k == x) && q k) := by
+  rw [hl.erase_eq_filter, List.filter_filter]
+  apply List.filter_congr
+  intro k _
+  simp [Bool.and_comm, bne]
+
+theorem filter_erase_cons {l : List Nat} (hl : l.Nodup) (x : Nat) (xs : List Nat) :
+    (l.erase x).filter (fun k => !xs.contains k) = l.filter (fun k => !(x :: xs).contains k) := by
+  rw [nodup_erase_filter hl]
+  apply List.filter_congr
+  intro k _
+  by_cases hkx : k = x <;> simp [hkx]
+
+/-- **extend(xs)** (distinct elements): each is removed from wherever it was; together they end up at the end of the tag's
+    children, in the given order; every other children list only loses them -/
+theorem appendAll_effect : ∀ (xs : List Nat) (h h' : Heap) (p : Nat), Good2 h → (h.kind p).isTag = true → xs.Nodup →
+    (∀ x ∈ xs, h.kind x ≠ .soup) → appendAll h p (xs.map Arg.node) = .ok h' →
+    Good2 h' ∧ h'.kids p = (h.kids p).filter (fun k => !xs.contains k) ++ xs ∧
+    (∀ n, n ≠ p → h'.kids n = (h.kids n).filter (fun k => !xs.contains k)) ∧ (∀ x ∈ xs, h'.parent x = some p) := by
+  intro xs
+  induction xs with
+  | nil =>
+    intro h h' p hg _ _ _ ha
+    simp only [List.map_nil, appendAll] at ha; cases ha
+    refine ⟨hg, ?_, ?_, ?_⟩
+    · rw [List.append_nil]; exact (List.filter_eq_self.mpr (fun _ _ => rfl)).symm
+    · intro n _; exact (List.filter_eq_self.mpr (fun _ _ => rfl)).symm
+    · intro x hx; cases hx
+  | cons x xs ih =>
+    intro h h' p hg hp hnd hk ha
+    simp only [List.map_cons, appendAll] at ha
+    cases hap : append h p (.node x) with
+    | error e => simp only [hap] at ha; cases ha
+    | ok h1 =>
+      simp only [hap] at ha
+      have hxk := hk x (by simp)
+      obtain ⟨hg1, hkp1, hko1, hpx1⟩ := append_one_effect hg hp hxk hap
+      obtain ⟨_, hks1⟩ := append_good2 extract_spec linkChild_spec hg hp hap
+      have hnd' := (List.nodup_cons.mp hnd)
+      have hp1 : (h1.kind p).isTag = true := by rw [hks1.1 p]; exact hp
+      have hk1 : ∀ y ∈ xs, h1.kind y ≠ .soup := fun y hy hs => hk y (by simp [hy]) ((hks1.2 y).mp hs)
+      obtain ⟨hg', hkp', hko', hpa'⟩ := ih h1 h' p hg1 hp1 hnd'.2 hk1 ha
+      have hxn : xs.contains x = false := by
+        have := hnd'.1
+        simp [this]
+      have hfinal : h'.kids p = (h.kids p).filter (fun k => !(x :: xs).contains k) ++ x :: xs := by
+        rw [hkp', hkp1, List.filter_append]
+        have : [x].filter (fun k => !xs.contains k) = [x] := by simp [hnd'.1]
+        rw [this, filter_erase_cons (good_kids_nodup hg.1 p)]
+        simp
+      refine ⟨hg', hfinal, ?_, ?_⟩
+      · intro n hn
+        rw [hko' n hn, hko1 n hn, filter_erase_cons (good_kids_nodup hg.1 n)]
+      · intro y hy
+        obtain ⟨w', hwf'⟩ := hg'.1
+        apply hwf'.kid_parent p y
+        rw [hfinal]
+        exact List.mem_append_right _ hy
+
+end BS.Heap
